@@ -142,7 +142,7 @@ CHECKS["C20"] = (
 
 CHECKS["C06"] = (
     "CrossHair-explored selector spaces (value text from character selectors x detection shape, metadata variants, transformation x rule shape, correlation / filter variants) through the real from_dict -> to_dict -> from_dict (and YAML) chain; dict forms and verification-backend queries compared",
-    "Detection rules: every value of length <= 2 (quick) / 3 (thorough) over an 8-character alphabet in 18 detection shapes, via dict and via YAML; 16x16 metadata variant pairs; after one of 10 pipeline transformations on 12 rule shapes to_dict() must raise a SigmaError or reload to equal queries; correlation rules: 8 types x aliases x group-by x generate x percentile {0, 90} x extended condition; 4 filter shapes, compared inside a converted collection.",
+    "Detection rules: every value of length <= 2 (quick) / 3 (thorough) over an 8-character alphabet in 18 detection shapes, via dict and via YAML; 16x16 metadata variant pairs; after one of 10 pipeline transformations on 16 rule shapes to_dict() must raise a SigmaError or reload to equal queries; correlation rules: 8 types x aliases x group-by x generate x percentile {0, 90} x extended condition; 4 filter shapes, compared inside a converted collection.",
     TB,
     "5.C06",
 )
